@@ -24,11 +24,11 @@ REQUIRED_PROBES = {"quick": ("s1f3", "s1f11", "s2f13", "s2f29", "s2f15_ok", "s2f
                                 "multi_item_refused_after_valid", "s5f2_unanswered")}
 EVIDENCE = {
     "level": "exploration",
-    "rule": ("seeded sequences of S1F3, S1F11, S2F13, S2F15, S2F29, S5F3, S5F5, S5F7 with id lists (empty = all, known, "
-             "unknown, repeated, numeric ids sent as U1/U2/U4/I4, text ids) and values (in range, at min/max, +-1 "
-             "outside), interleaved with set_alarm/clear_alarm from an application thread (S5F2 answered or not) and "
-             "status variable updates; non-trivial = history has an S2F15 and an alarm change; distinct = distinct "
-             "op-kind sequences"),
+    "rule": ("seeded sequences of S1F3, S1F11, S2F13, S2F15, S2F29, S5F3, S5F5, S5F7 with id lists (empty = all, "
+             "known, unknown, repeated, numeric ids sent as U1/U2/U4/I4, text ids) and values (in range, at "
+             "min/max, +-1 outside), interleaved with set_alarm/clear_alarm from an application thread (S5F2 "
+             "answered or not) and status variable updates, two alarms changed by two threads at once; non-trivial "
+             "= history has an S2F15 and an alarm change; distinct = distinct op-kind sequences"),
     "real": ["secsgem.gem.StatusDataCollectionCapability", "secsgem.gem.EquipmentConstantsCapability",
              "secsgem.gem.AlarmCapability", "secsgem.gem.ClockCapability", "secsgem.gem.GemEquipmentHandler",
              "secsgem.hsms.HsmsProtocol"],
